@@ -52,10 +52,12 @@ def register2(R, P):
 
 
 def register3(R, P):
-    P["C14"] = {"targets": ["_increment_backups"], "shards": {"_increment_backups": 6},
+    P["C14"] = {"targets": ["_increment_backups", "write_model"], "shards": {"_increment_backups": 6, "write_model": 6},
                 "trusted_base": ["pathlib.Path.exists/is_dir/is_file/unlink/rename, shutil.rmtree: external contracts over the ghost file-system view FS "
                                  "(each may raise OSError; rename/unlink atomic; a failing rmtree may leave its own path in any state)",
-                                 "string facts GEN-INJ: generation paths base+'_BAK'+str(k) are pairwise distinct; concatenation is associative"],
+                                 "string facts GEN-INJ: generation paths base+'_BAK'+str(k) are pairwise distinct; concatenation is associative; s + '' == s",
+                                 "write_model: _get_serializer touches no file; ModelWriter.__init__ touches no file; ModelWriter.write_model writes below its root only "
+                                 "(directory destination may be left partial on failure, zip destination absent-or-complete); rmtree(ignore_errors=True) never raises"],
                 "assumptions": ["on-disk intactness of what the writer produces, zip staging and registry/flag clean-up of ModelWriter/ModelReader are covered by the "
                                 "bounded fault-injection driver only (serializer_6 writer/reader are outside the supported subset)"]}
     P["C04"] = {"targets": ["abs_to_rel_tuple", "rel_to_abs_tuple"], "lemmas": ["C04-ROUNDTRIP-TUPLE"], "shards": {},
@@ -70,8 +72,9 @@ def register3(R, P):
 def register4(R, P):
     P["C18"] = {"targets": list(P["_refmgr"]), "shards": {"ReferenceManager.change_ref": 6, "ReferenceManager.del_ref": 3},
                 "trusted_base": ["model/space layer reference operations (SpaceManager.new_ref/del_ref/change_ref, ModelImpl.new_ref/del_ref/change_ref): frame + effect on own_refs, assumed",
-                                 "IOManager.get_spec_from_value / del_spec over the ghost set `specs`", "id() injective on live objects"],
-                "assumptions": ["IOManager internals (BiDict, SharedIO tables), update_value and new_pandas undo paths are covered by the bounded driver only"]}
+                                 "IOManager.get_spec_from_value / del_spec / update_spec_value over the ghost set `specs`", "id() injective on live objects",
+                                 "ReferenceManager._impl_change_ref (static dispatcher to the model/space layer): the name is re-bound to a fresh reference object holding the value, nothing else moves"],
+                "assumptions": ["IOManager internals (BiDict, SharedIO tables), new_pandas / new_excel_range undo paths are covered by the bounded driver only"]}
     P["C12"] = {"targets": list(P["_names"]) + ["CustomChainMap.__getitem__", "CustomChainMap.__contains__", "LazyEval.notify"], "shards": {},
                 "trusted_base": ["SharedSpaceOperations._get_subs (networkx descendants / topological order) as the uninterpreted set subs(); namespace property modelled as a field equal to _namespace.fresh"],
                 "assumptions": ["add_bases conflict check, new_cells/rename guards, LazyEval refresh and dir() are covered by the bounded driver only"]}
